@@ -150,6 +150,16 @@ def rule_bound(ctx):
     # workers: None -> 1
     dfl = [st for st in flow.stmts if isinstance(st, ast.If) and norm(st.test) == "%s is None" % wname]
     okd = bool(dfl) and len(dfl[0].body) == 1 and norm(dfl[0].body[0]) == "%s = 1" % wname
+    if not dfl:
+        # the same default as an expression: 1 if W is None else W / W if W is not None else 1 / W or 1
+        for n_ in ast.walk(f.node):
+            if isinstance(n_, ast.IfExp):
+                t_ = str(norm(n_.test))
+                if (t_ == "%s is None" % wname and norm(n_.body) == "1" and norm(n_.orelse) == wname) \
+                        or (t_ == "%s is not None" % wname and norm(n_.orelse) == "1" and norm(n_.body) == wname):
+                    okd, dfl = True, [n_]
+            elif isinstance(n_, ast.BoolOp) and isinstance(n_.op, ast.Or) and [str(norm(v_)) for v_ in n_.values] == [wname, "1"]:
+                okd, dfl = True, [n_]
     ctx.ob("FileSet.imap.workers", okd, "%s" % (norm(dfl[0])[:60] if dfl else None), "max_workers None counts as 1 (at least one task in flight)", node=dfl[0] if dfl else f.node, func=f)
 
 
